@@ -54,14 +54,14 @@ man = {
         "guard": "none",
         "enable": "no hook or instrumentation is added to /repo: the seam is /verif/sim/shim/simshim.c, LD_PRELOADed into the unmodified release binary that every check rebuilds from /repo's working tree (cargo build --release --offline)",
         "baseline_off_cmd": "cd /repo && cargo test --workspace --no-fail-fast --offline",
-        "source_commits": fixes,
+        "source_commits": [],
         "add_only": True,
     },
     "engines": [{"name": "blsim", "path": "/verif/sim", "serves_properties": [c["property_id"] for c in checks],
                  "kind_free_text": "deterministic simulation with fault injection at the libc boundary: LD_PRELOAD seam (C) numbering and perturbing every filesystem operation of the real binary, seeded Python orchestrator generating worlds and run/edit histories, record-then-perturb fault placement, reference model and oracles, minimiser and exact replay"}],
     "checks": checks,
     "not_applicable": na,
-    "notes": "Every check rebuilds the release binary from /repo's working tree, runs on /dev/shm scratch worlds, honours VERIF_SEED/VERIF_TIER, prints VIOLATION/KNOWN-FINDING lines as specified and exits 0/1 (2 = harness error). See DESIGN.md.",
+    "notes": "Every check rebuilds the release binary from /repo's working tree, runs on /dev/shm scratch worlds, honours VERIF_SEED/VERIF_TIER, prints VIOLATION/KNOWN-FINDING lines as specified and exits 0/1 (2 = harness error). No hook commits exist in /repo; the only commits made there are the unguarded repairs of genuine defects ('fix:' commits " + ", ".join(fixes) + ", listed as 'fixed' in known_findings.json), after each of which the unedited suite passes. See DESIGN.md.",
 }
 json.dump(man, open(os.path.join(HERE, "MANIFEST.json"), "w"), indent=1)
 print("checks:", [c["property_id"] for c in checks], "n/a:", [n["property_id"] for n in na])
